@@ -373,6 +373,29 @@ def fam_death_before_input(rng, n, tag="dbi"):
         out.append(s)
     return out
 
+def fam_disc_two_players(rng, n, tag="d2p"):
+    """two peers with two players each; one peer dies (or just falls silent) and the survivor drops it with an
+    explicit disconnect_player(h) for ONE of its two handles: both players of that endpoint are dropped, the
+    survivor keeps advancing and both end up (default, Disconnected) after their last received frame"""
+    out = []
+    for i in range(n):
+        w = rng.choice([0, 1, 2, 4, 8])
+        s = Scen("%s_%d" % (tag, i), players=4, window=w, lat=rng.choice([5, 20, 45]), seed=rng.randrange(1 << 30),
+                 sparse=(rng.randrange(2) if w > 0 else 0), pred=rng.choice(["repeat", "default"]), inputrun=rng.choice([1, 3]),
+                 timeout=rng.choice([3000, 5000]), notify=1000)
+        _topology(rng, s, 2, 4, delays=(0, 0, 1))
+        t_die = rng.randrange(500, 1500)
+        t_disc = t_die + s.cfg["lat"] + rng.choice([20, 60, 150, 400])
+        end = t_disc + 2500
+        s.ticks(1, rng.randrange(0, 16), end, 16)
+        s.ticks(2, rng.randrange(0, 16), t_die, 16)
+        s.at(t_die, "kill", 2)
+        s.at(t_disc, "disc", 1, rng.choice([1, 3]))
+        s.at(t_disc + 200, "mark")
+        s.at(end - 10, "progress", 1, 60, "C07")
+        out.append(s)
+    return out
+
 def fam_death_long(rng, n, tag="dlong"):
     """2-3 peers with desync detection on; one dies cleanly and is dropped by timeout; the survivors keep
     playing for many seconds after the dead peer's endpoint has gone from Disconnected to Shutdown (5 s):
@@ -556,6 +579,10 @@ def fam_inject(rng, n, tag="inj"):
         # of the i32 frame range
         lambda r: ("input", 0, r.choice([0, 1, 3, 7]), r.randrange(0, 300), -1, "02040502030d"),
         lambda r: ("input", 0, 2, -r.randrange(1, 1 << 30), -1, "02040502030d"),
+        # ... the same carrying an acknowledgement the peer never sent (a rejected packet must not act as an ack:
+        # what it would discard from pending_output is needed again when a genuine packet is lost)
+        lambda r: ("input", 0, r.choice([0, 1, 3, 7]), r.randrange(0, 300), r.choice([100000, r.randrange(0, 400)]), "02040502030d"),
+        lambda r: ("input", 0, 2, -r.randrange(1, 1 << 30), r.choice([100000, r.randrange(0, 400)]), "02040502030d"),
         lambda r: ("input", 0, 2, r.randrange(0, 300), -1, r.choice(["80", "ffffffffffffffffffff01", "8180808004", "ff", "7f7f7f"])),
         lambda r: ("input", 0, 2, r.randrange(0, 300), -1, r.choice(["020305080707070311", "020205040607"])),
         lambda r: ("input", 0, 2, 2147483647, -1, "020305080707070311"),
@@ -570,6 +597,10 @@ def fam_inject(rng, n, tag="inj"):
         def mk(dirty):
             s = Scen("%s_%d%s" % (tag, i, "d" if dirty else "c"), players=2, window=8, lat=10, seed=seed, inputrun=2, expect=["nodisconnect"])
             s.p2p(1, [0]); s.p2p(2, [1])
+            # the same losses in both runs: retransmissions have to work (they need what is still pending)
+            r1 = __import__("random").Random(seed ^ 0x5151)
+            if r1.random() < 0.6:
+                s.link(1, 2, outages=[(a, a + r1.choice([40, 80, 150])) for a in sorted(r1.sample(range(300, 3800, 50), r1.randrange(2, 8)))])
             for p, o in ((1, 0), (2, 5)):
                 s.ticks(p, o, 4000, 16)
             return s
